@@ -1,0 +1,90 @@
+//go:build verif
+
+package registry
+
+// Contracts for gocv (see /verif/DESIGN.md). Comment-only file.
+
+//@ package registry
+//@ import errdef "oras.land/oras-go/v2/errdef"
+//@ import digest "github.com/opencontainers/go-digest"
+//@
+//@ // ---------------------------------------------------------------- reference grammar (C20)
+//@ // Facts about the two validators' languages, decided on the patterns of the real
+//@ // regular expressions (regexp theory of the solver).
+//@ relemma [C20:repository-excludes-reference-separators] repositoryRegexp excludes ":@"
+//@ relemma [C20:repository-nonempty] repositoryRegexp nonempty
+//@ relemma [C20:repository-url-safe] repositoryRegexp excludes "?#% "
+//@ relemma [C20:tag-excludes-separators] tagRegexp excludes ":@/"
+//@ relemma [C20:tag-nonempty] tagRegexp nonempty
+//@ relemma [C20:tag-at-most-128-bytes] tagRegexp maxlen 128
+//@ relemma [C20:tag-url-safe] tagRegexp excludes "?#% "
+//@
+//@ pure regOK(s string) bool = uriOK("dummy://" + s) && uriHost("dummy://" + s) != "" && uriHost("dummy://" + s) == s
+//@ pure repoOK(s string) bool = reMatch(repositoryRegexp, s)
+//@ pure tagOK(s string) bool = reMatch(tagRegexp, s)
+//@
+//@ // the split of an artifact string, as a function of the string (47 '/', 64 '@', 58 ':')
+//@ pure pSlash(a string) int = firstIdx(a, 47)
+//@ pure pReg(a string) string = strsub(a, 0, pSlash(a))
+//@ pure pPath(a string) string = strsub(a, pSlash(a) + 1, strlen(a))
+//@ pure pAt(a string) int = firstIdx(pPath(a), 64)
+//@ pure pBeforeAt(a string) string = strsub(pPath(a), 0, pAt(a))
+//@ pure pColon(a string) int = firstIdx(pPath(a), 58)
+//@ pure pIsTag(a string) bool = pAt(a) == -1 && pColon(a) != -1
+//@ pure pRepo(a string) string = pAt(a) != -1 ? (firstIdx(pBeforeAt(a), 58) != -1 ? strsub(pBeforeAt(a), 0, firstIdx(pBeforeAt(a), 58)) : pBeforeAt(a)) : (pColon(a) != -1 ? strsub(pPath(a), 0, pColon(a)) : pPath(a))
+//@ pure pRef(a string) string = pAt(a) != -1 ? strsub(pPath(a), pAt(a) + 1, strlen(pPath(a))) : (pColon(a) != -1 ? strsub(pPath(a), pColon(a) + 1, strlen(pPath(a))) : "")
+//@ pure pOK(a string) bool = pSlash(a) != -1 && regOK(pReg(a)) && repoOK(pRepo(a)) && (pRef(a) == "" || (pIsTag(a) ? tagOK(pRef(a)) : digestParses(pRef(a))))
+//@
+//@ func (Reference).ValidateRegistry
+//@   ensures [C20:registry-is-a-url-authority-without-user-info] (result == nil) == regOK(r.Registry)
+//@   ensures [C20:error-kind] result != nil ==> errors.Is(result, errdef.ErrInvalidReference)
+//@   modifies alloc, elems[any]
+//@ func (Reference).ValidateRepository
+//@   ensures [C20:repository-grammar] (result == nil) == repoOK(r.Repository)
+//@   ensures [C20:error-kind] result != nil ==> errors.Is(result, errdef.ErrInvalidReference)
+//@   modifies alloc, elems[any]
+//@ func (Reference).ValidateReferenceAsTag
+//@   ensures [C20:tag-grammar] (result == nil) == tagOK(r.Reference)
+//@   ensures [C20:error-kind] result != nil ==> errors.Is(result, errdef.ErrInvalidReference)
+//@   modifies alloc, elems[any]
+//@ func (Reference).Digest
+//@   ensures [C20:digest-of-reference] (result1 == nil) == digestParses(r.Reference) && result0 == r.Reference
+//@   modifies nothing
+//@ func (Reference).ValidateReferenceAsDigest
+//@   ensures [C20:digest-grammar] (result == nil) == digestParses(r.Reference)
+//@   ensures [C20:error-kind] result != nil ==> errors.Is(result, errdef.ErrInvalidReference)
+//@   modifies alloc, elems[any]
+//@ func (Reference).ValidateReference
+//@   ensures [C20:reference-is-empty-digest-or-tag] (result == nil) == (r.Reference == "" || (firstIdx(r.Reference, 58) != -1 ? digestParses(r.Reference) : tagOK(r.Reference)))
+//@   ensures [C20:error-kind] result != nil ==> errors.Is(result, errdef.ErrInvalidReference)
+//@   modifies alloc, elems[any]
+//@
+//@ func ParseReference
+//@   ensures [C20:accepts-exactly-the-grammar] (result1 == nil) == pOK(artifact)
+//@   ensures [C20:returns-the-parts] result1 == nil ==> result0.Registry == pReg(artifact) && result0.Repository == pRepo(artifact) && result0.Reference == pRef(artifact)
+//@   ensures [C20:rejects-with-invalid-reference] result1 != nil ==> errors.Is(result1, errdef.ErrInvalidReference) && result0.Registry == "" && result0.Repository == "" && result0.Reference == ""
+//@   modifies alloc, elems[any], elems[string]
+//@
+//@ pure refString(r Reference) string = r.Repository == "" ? r.Registry : (r.Reference == "" ? r.Registry + "/" + r.Repository : (digestParses(r.Reference) ? r.Registry + "/" + r.Repository + "@" + r.Reference : r.Registry + "/" + r.Repository + ":" + r.Reference))
+//@ func (Reference).String
+//@   ensures [C20:canonical-form] result == refString(r)
+//@   modifies nothing
+//@
+//@ // ---- formatting a valid reference and parsing it again yields the same reference
+//@ pure validRef(r Reference) bool = regOK(r.Registry) && repoOK(r.Repository) && (r.Reference == "" || digestParses(r.Reference) || tagOK(r.Reference))
+//@ pure noByte(s string, c int) bool = forall i int :: 0 <= i && i < strlen(s) ==> strat(s, i) != c
+//@ axiom [registry-authority-has-no-slash] forall s string :: regOK(s) ==> noByte(s, 47)
+//@ axiom [digest-has-a-colon-and-no-at] forall s string :: digestParses(s) ==> firstIdx(s, 58) != -1 && noByte(s, 64)
+//@ lemma [C20:first-occurrence-after-a-clean-prefix] forall a string, b string, c int :: noByte(a, c) && strlen(b) > 0 && strat(b, 0) == c ==> strat(a + b, strlen(a)) == c && firstIdx(a + b, c) == strlen(a)
+//@ lemma [C20:no-occurrence] forall a string, c int :: noByte(a, c) ==> firstIdx(a, c) == -1
+//@ lemma [C20:first-occurrence-survives-append] forall x string, y string, c int :: firstIdx(x, c) >= 0 ==> strat(x + y, firstIdx(x, c)) == c && firstIdx(x + y, c) == firstIdx(x, c)
+//@ lemma [C20:slash-position] forall r Reference :: validRef(r) ==> pSlash(refString(r)) == strlen(r.Registry)
+//@ lemma [C20:format-then-parse-is-identity] forall r Reference :: validRef(r) ==> pOK(refString(r)) && pReg(refString(r)) == r.Registry && pRepo(refString(r)) == r.Repository && pRef(refString(r)) == r.Reference
+//@
+//@ // ---- what the URL builders rely on: the parts of a valid reference stay in their slot
+//@ pure hostOf(r Reference) string = r.Registry == "docker.io" ? "registry-1.docker.io" : r.Registry
+//@ func (Reference).Host
+//@   ensures [C20:host-of-registry] result == hostOf(r)
+//@   modifies nothing
+//@ axiom [digest-has-no-path-or-query-characters] forall s string :: digestParses(s) ==> noByte(s, 47) && noByte(s, 63) && noByte(s, 35)
+//@ lemma [C20:parts-stay-in-their-url-slot] forall r Reference :: validRef(r) ==> noByte(r.Repository, 63) && noByte(r.Repository, 35) && noByte(r.Reference, 47) && noByte(r.Reference, 63) && noByte(r.Reference, 35)
